@@ -291,8 +291,11 @@ def map_ops(rng, n):
         r = rng.random()
         k = rng.randrange(2)
         if r < 0.3:
-            ops += [0, k]
+            ops += [0, rng.randrange(4)]
+        elif r < 0.38:
+            ops += [2, k]                      # re-handshake with peer address k
         else:
+            k = rng.randrange(5)               # any of the secrets inserted so far (mod their number)
             kind = rng.randrange(3)
             mode = rng.choice([0, 0, 0, 1, 2, 3, 4])
             val = rng.choice([0, 1, 2, 5, 63, 64, 1000, 1 << 20, 1 << 40, rng.randrange(1 << 16)])
@@ -321,6 +324,15 @@ def fixed_map(tier):
                 1, 0, 0, 0, 0, 0, 0, 0, 1, 0, 1, 0, 9, 0, 1, 1, 0, 0, 0, 1, 0, 1])
     if tier == "thorough":
         out.append([0, 1, 1, 0, 0, 0, 0, 0, 0, 0, 1, 1, 0, 0, 0, 1, 0, 1])
+    # re-handshake: two secrets for the same peer address (ids 0 and 2 for peer 0), entries aged,
+    # eviction on: an UnknownPathSecret naming the OLD secret evicts it and only it -- the address
+    # still resolves to the newer secret; then one naming the newer one (younger than 10 s) does not evict
+    out.append([1, 1, 2, 0, 0, 2, 1, 0, 0, 0, 0, 1, 0, 0, 0, 2, 1, 2, 0, 0, 0, 0, 0, 2, 1, 1, 0, 0, 0, 1, 0, 1])
+    # the same with forged packets first, and peer 1 re-handshaken twice
+    out.append([1, 1, 2, 1, 2, 1, 1, 1, 0, 1, 0, 0, 1, 1, 0, 2, 0, 1, 1, 1, 0, 0, 0, 0, 0, 4, 1, 3, 0, 0, 0, 1, 0, 3])
+    # without aging nothing is evicted; StaleKey for the old secret does not touch the new one
+    out.append([1, 0, 2, 0, 1, 0, 0, 0, 0, 0, 1, 0, 1, 0, 9, 1, 0, 0, 0, 2, 1, 2, 0, 0, 0, 0])
+    out.append([0, 0, 2, 0, 2, 0, 2, 1, 1, 0, 0, 0, 0, 0, 1, 2, 0, 0, 0, 1, 1, 4, 0, 0, 0, 0])
     return out
 
 
@@ -333,6 +345,9 @@ def map_hist(cases, outs):
             if ops[i] == 0:
                 h["issues"] += 1
                 i += 2
+            elif ops[i] == 2:
+                h["rehandshakes"] = h.get("rehandshakes", 0) + 1
+                i += 2
             else:
                 h["deliveries"] += 1
                 mode = (ops[i + 3] if i + 3 < len(ops) else 0) % 5
@@ -340,6 +355,59 @@ def map_hist(cases, outs):
                 i += 6
         if len(c) > 1 and c[0] and c[1]:
             h["evictions_possible"] += 1
+    return h
+
+
+# ------------------------------------------------------------------------------------------------
+# keys: the receiver's rotating opener and forged packets
+# ------------------------------------------------------------------------------------------------
+def gen_keys(rng):
+    ops = []
+    for _ in range(rng.choice([1, 3, 6, 12, 25, 40])):
+        r = rng.random()
+        if r < 0.45:
+            ops.append(0)
+        elif r < 0.85:
+            if rng.random() < 0.5:
+                ops += [1, 0, rng.choice([1, 1, 3, 0x11, 0xff, rng.randrange(256)])]   # tag byte: key-phase bit
+            else:
+                ops += [1, rng.randrange(80), rng.randrange(256)]
+        else:
+            ops.append(2)
+    return ops
+
+
+def fixed_keys(tier):
+    out = [[], [0], [0, 0, 0]]
+    # a forged packet with the key-phase bit flipped, before / between / after authentic ones and key updates
+    out.append([1, 0, 0, 0, 0])
+    out.append([0, 1, 0, 0, 0, 1, 0, 0, 0, 0])
+    out.append([0, 2, 0, 1, 0, 0, 0, 2, 0, 1, 0, 0, 0, 0])
+    out.append([0, 2, 1, 0, 0, 0, 0])
+    out.append([2, 2, 0, 1, 0, 0, 0])
+    for pos in range(0, 70):
+        out.append([0, 1, pos, 0, 0, 1, pos, 0x7f, 0, 2, 0, 0])
+    for x in range(255):
+        out.append([0, 1, 0, x, 0, 2, 1, 0, x, 0, 0])
+    return out
+
+
+def keys_hist(cases, outs):
+    h = {"authentic": 0, "forged": 0, "forged_phase_bit": 0, "updates": 0}
+    for c in cases:
+        i = 0
+        while i < len(c):
+            if c[i] == 0:
+                h["authentic"] += 1
+                i += 1
+            elif c[i] == 1:
+                h["forged"] += 1
+                if i + 2 < len(c) and c[i + 1] == 0 and (c[i + 2] % 255 + 1) % 2 == 1:
+                    h["forged_phase_bit"] += 1
+                i += 3
+            else:
+                h["updates"] += 1
+                i += 1
     return h
 
 
@@ -424,8 +492,12 @@ registry.register("C18", {
          "valid": lambda c: all(v >= 0 for v in c),
          "nontrivial": lambda case, out: len(case) > 4 and 1 in case[2::],
          "histogram": map_hist},
+        {"name": "keys", "gen": gen_keys, "fixed": fixed_keys, "quick": 6000, "thorough": 100000,
+         "valid": lambda c: all(v >= 0 for v in c),
+         "nontrivial": lambda case, out: 1 in case and 0 in case,
+         "histogram": keys_hist},
     ],
-    "rule": "sc: fixed families (every kind x queue-id x varint size boundary, truncations, one mutation at every position, every first byte, every prefix length) + seeded random: 55% round-trip cases (fields -> real encoder with a key derived by the real schedule for either cipher suite -> real decoder; all 255 x len single-byte mutations inside the harness; up to 8 extra byte xors + truncation), 45% raw byte strings (half of them near-valid packets built by an independent Python encoder, mutated/truncated). pkt: every tag-bit combination of stream/datagram/control x 4 size profiles, every varint field at every size boundary, every first byte, every truncation of a valid packet of each kind, retransmission-offset overflow edges + seeded random: 50% round-trip cases (real encoder, real AES-GCM-128/256 or HMAC-SHA256/384 keys from the real key schedule, decode + open, all 255 x len single-byte mutations of header, ciphertext and tag inside the harness, one multi-byte mutation; reliable stream data packets are additionally retransmitted under a new packet number with the real Packet::retransmit, decoded, opened, opened with a wrong control key, and again subjected to all single-byte mutations), 50% raw byte strings through the tag dispatcher (near-valid packets of all six kinds from an independent Python encoder, mutated/truncated, and noise). map: every (kind, forgery mode, entry point) on a fresh map, replayed/forged StaleKey sequences, entries older than 10 s with eviction enabled (harness sleeps) + seeded random op sequences of up to 30 deliveries/key-id issues with 4 forgery modes. A round-trip case is always non-trivial; a raw case when it decodes; a map case when it delivers at least one packet.",
+    "rule": "sc: fixed families (every kind x queue-id x varint size boundary, truncations, one mutation at every position, every first byte, every prefix length) + seeded random: 55% round-trip cases (fields -> real encoder with a key derived by the real schedule for either cipher suite -> real decoder; all 255 x len single-byte mutations inside the harness; up to 8 extra byte xors + truncation), 45% raw byte strings (half of them near-valid packets built by an independent Python encoder, mutated/truncated). pkt: every tag-bit combination of stream/datagram/control x 4 size profiles, every varint field at every size boundary, every first byte, every truncation of a valid packet of each kind, retransmission-offset overflow edges + seeded random: 50% round-trip cases (real encoder, real AES-GCM-128/256 or HMAC-SHA256/384 keys from the real key schedule, decode + open, all 255 x len single-byte mutations of header, ciphertext and tag inside the harness, one multi-byte mutation; reliable stream data packets are additionally retransmitted under a new packet number with the real Packet::retransmit, decoded, opened, opened with a wrong control key, and again subjected to all single-byte mutations), 50% raw byte strings through the tag dispatcher (near-valid packets of all six kinds from an independent Python encoder, mutated/truncated, and noise). map: every (kind, forgery mode, entry point) on a fresh map, replayed/forged StaleKey sequences, entries older than 10 s with eviction enabled (harness sleeps) + seeded random op sequences of up to 30 deliveries/key-id issues with 4 forgery modes. keys: a sender (locally initiated keys of one map) and a receiver holding the matching remote keys in stream::crypto::Crypto; op sequences of authentic packets, forged packets (one changed byte, half of them in the tag byte = key-phase bit) and sender key updates, opened through Crypto::open_with + decrypt_in_place; fixed: a forged packet at every byte position and with every xor of the tag byte, around key updates. A round-trip case is always non-trivial; a raw case when it decodes; a map case when it delivers at least one packet.",
     "assumptions": [
         "ideal MAC / AEAD: a (nonce, header, ciphertext, tag) tuple opens / verifies only if the key holder produced it (explicit premise of the C18_*_rejected / *_accept_is_sent theorems; the harness monitors it with real HMAC-SHA256/384 and AES-128/256-GCM keys derived by the real key schedule)",
         "map handlers run one at a time (the model is sequential); entry age is the only use of wall-clock time (harness sleeps 10 s for the aged cases)",
